@@ -2,6 +2,7 @@ import inspect
 import math
 import re
 import sys
+import threading
 import warnings
 import ast
 from collections import OrderedDict
@@ -422,6 +423,12 @@ def _run_pretty(pretty_fn, value, ctx, trailing_comment=None):
 
 _DEFERRED_DISPATCH_BY_NAME = {}
 
+# Guards the printer registries. functools.singledispatch walks its
+# registry in Python code while resolving a class, so a registration
+# (e.g. the first use of a by-name printer in another thread) must not
+# happen in the middle of a lookup.
+_REGISTRY_LOCK = threading.RLock()
+
 
 def get_deferred_key(type):
     return type.__module__ + '.' + type.__qualname__
@@ -448,21 +455,25 @@ def pretty_python_value(value, ctx):
 
     value, comment, trailing_comment = unwrap_comments(value)
 
-    is_registered(
-        type(value),
-        check_superclasses=True,
-        check_deferred=True,
-        register_deferred=True
-    )
+    with _REGISTRY_LOCK:
+        is_registered(
+            type(value),
+            check_superclasses=True,
+            check_deferred=True,
+            register_deferred=True
+        )
+        # Resolve the printer while no registration can interfere;
+        # the printer itself runs outside the lock.
+        printer = pretty_dispatch.dispatch(type(value))
 
     if trailing_comment:
-        doc = pretty_dispatch(
+        doc = printer(
             value,
             ctx,
             trailing_comment=trailing_comment
         )
     else:
-        doc = pretty_dispatch(
+        doc = printer(
             value,
             ctx
         )
@@ -552,12 +563,13 @@ def register_pretty(type=None, predicate=None):
                 # class, we can call register_pretty(cls)(fn)
                 _DEFERRED_DISPATCH_BY_NAME[type] = fn
             else:
-                pretty_dispatch.register(type, partial(_run_pretty, fn))
-                # A direct registration supersedes a pending
-                # by-name registration for the same class. The entry
-                # is dropped only after the printer is live, so that
-                # another thread never finds the class in neither place.
-                _DEFERRED_DISPATCH_BY_NAME.pop(get_deferred_key(type), None)
+                with _REGISTRY_LOCK:
+                    pretty_dispatch.register(type, partial(_run_pretty, fn))
+                    # A direct registration supersedes a pending
+                    # by-name registration for the same class. The entry
+                    # is dropped only after the printer is live, so that
+                    # another thread never finds the class in neither place.
+                    _DEFERRED_DISPATCH_BY_NAME.pop(get_deferred_key(type), None)
         else:
             assert callable(predicate)
             _PREDICATE_REGISTRY.append((predicate, fn))
@@ -605,7 +617,8 @@ def is_registered(
                     # Registering also drops the deferred entry.
                     register_pretty(supertype)(deferred_dispatch)
                 return True
-    return pretty_dispatch.dispatch(type) is not _BASE_DISPATCH
+    with _REGISTRY_LOCK:
+        return pretty_dispatch.dispatch(type) is not _BASE_DISPATCH
 
 
 def bracket(ctx, left, child, right):
